@@ -197,7 +197,7 @@ type simRun struct {
 	waitWhich  atomic.Int32
 	stallWs    int64 // monitor only
 	stallTicks int   // monitor only
-	exitCh    chan parkMsg
+	exitCh     chan parkMsg
 }
 
 // goroutine registry used by the hook to find the calling simulated client.
